@@ -120,6 +120,8 @@ func run(r *core.Run) {
 		"a case is non-trivial when at least one back-end call was made; distinct by scenario + schedule"
 	rd := r.Rand.Fork()
 	schedules := 0
+	// the race-detector build + run of the v1 shared-handle workload proceeds in the background (v1race.go)
+	raceJob := startV1Race(r)
 
 	// 0. deterministic witness of the cache aliasing defect (repo-patches/05)
 	runV1Aliasing(r)
@@ -200,6 +202,8 @@ func run(r *core.Run) {
 	runImportRace(r)
 	// 5. one v1 handle shared by many goroutines
 	runV1Shared(r)
+	// 6. the same under the Go race detector (cache size 2, 8 goroutines), built and run as a child process
+	raceJob.finish(r)
 	r.Extra["schedules_enumerated"] = schedules
 	r.Exhaustive = true
 	r.Note("exhaustive part: every interleaving (at back-end-call granularity) of each enumerated two-writer scenario was executed on the real key store and replayed through the model")
